@@ -44,6 +44,18 @@ RULES = {
     'R-WRAP': ('r_generic', 'rule_WRAP', 'default'),
     'R-RNG': ('r_generic', 'rule_RNG', 'default'),
     'R-REMC': ('r_generic', 'rule_REMC', 'default'),
+    'R-PAR': ('r_generic', 'rule_PAR', 'default'),
+    'R-GIDX': ('r_generic2', 'rule_GIDX', 'default'),
+    'R-DNAME': ('r_generic2', 'rule_DNAME', 'default'),
+    'R-SIGN': ('r_generic2', 'rule_SIGN', 'default'),
+    'R-EMPT': ('r_generic2', 'rule_EMPT', 'default'),
+    'R-USE': ('r_generic2', 'rule_USE', 'default'),
+    'R-FLT': ('r_generic2', 'rule_FLT', 'default'),
+    'R-STAB': ('r_generic2', 'rule_STAB', 'default'),
+    'R-CTOR': ('r_generic2', 'rule_CTOR', 'default'),
+    'R-OFFS': ('r_generic2', 'rule_OFFS', 'default'),
+    'R-CODE': ('r_generic2', 'rule_CODE', 'default'),
+    'R-HORD': ('r_generic2', 'rule_HORD', 'default'),
 }
 
 _cache = {}
@@ -171,6 +183,18 @@ TEXT = {
     'R-GUSE': 'R-GUSE: in every checked API method of the contract table (private helpers inlined) no bounds-checked indexing whose index depends on a contract argument happens before some test of that argument (guard before use).',
     'R-WRAP': 'R-WRAP: no wrapping_/overflowing_/unchecked_ shift by a computed amount that is not bounded below the word size on that path.',
     'R-RNG': 'R-RNG: no exclusive range with constant bounds ends at the maximum of an integer type.',
+    'R-GIDX': 'R-GIDX: no bounds-checked index is guarded by a test of the same index against the same length that admits index == length.',
+    'R-DNAME': 'R-DNAME: a trait method that is a bare delegation to an inherent method of its type calls the inherent method of the same name when one exists.',
+    'R-SIGN': 'R-SIGN: same-named methods of sibling types do not differ in a const argument of their return type.',
+    'R-EMPT': 'R-EMPT: is_empty() tests the quantity len() is computed from, at least as finely.',
+    'R-USE': 'R-USE: construction and mutation entry points read every input parameter.',
+    'R-FLT': 'R-FLT: the word-level primitives do not compute an integer result through floating point.',
+    'R-STAB': 'R-STAB: a function named stable_* calls no unstable sort.',
+    'R-CTOR': 'R-CTOR: a constructor returns its constant-empty value only under an emptiness test of the input (not `len <= 1`).',
+    'R-OFFS': 'R-OFFS: the prefetch phases of rank take the child-range offset from the same per-level counter as rank_unchecked.',
+    'R-CODE': 'R-CODE: the content of a prefix code is shifted by an amount computed from that code\'s own length, not from another length of the tree.',
+    'R-HORD': 'R-HORD: a sequence built from the iteration of a hash container is sorted in the function that builds it.',
+    'R-PAR': 'R-PAR: vector fields that a reader indexes with one index receive their elements under the same conditions in the constructor (no append depending on the appended element itself).',
     'R-REMC': 'R-REMC: `len & (C-1)` is never compared by order with a position nor passed as a count: for a full last chunk it is 0.',
     'R-OBJ': 'R-OBJ: a function handed a component by reference (select<BIT>(.., inventories: &Inventories<BIT>)) never reads a field of self of the same type, in its body or its inlined private helpers: the work is done on the object it was given.',
     'R-TAB': 'R-TAB: the compiler-evaluated K_SELECT_IN_BYTE is compared with its definition for all 2048 entries (exhaustive).',
@@ -193,36 +217,36 @@ EXPL = ('Static analysis of the type-checked program (MIR, ADT/impl metadata, ev
         'configurations. Decides the structural clauses listed under `rule` -- necessary conditions of the property that are visible in the shape '
         'of the code on every path -- and NOT the input/output behaviour, which quantifies over runtime values. ')
 
-_p('C01', ['R-G', 'R-SIB', 'R-E', 'R-O', 'R-W', 'R-TW', 'R-DEL', 'R-LAY', 'R-BITS', 'R-SPLIT', 'R-SMP', 'R-CMP', 'R-SELP', 'R-SIG', 'R-PRE', 'R-GUSE', 'R-REMC'], 'other',
+_p('C01', ['R-G', 'R-SIB', 'R-E', 'R-O', 'R-W', 'R-TW', 'R-DEL', 'R-LAY', 'R-BITS', 'R-SPLIT', 'R-SMP', 'R-CMP', 'R-SELP', 'R-SIG', 'R-PRE', 'R-GUSE', 'R-REMC', 'R-PAR', 'R-SER', 'R-GIDX', 'R-DNAME', 'R-EMPT', 'R-USE', 'R-STAB', 'R-CTOR'], 'other',
    EXPL + 'C01: validation of QWaveletTree get/rank/rank_prefetch/select, empty/default state, argument arithmetic, symbol width in builder/partition/readers, construction paths.',
    'that ranks/offsets compose to the right count and position across levels; sigma / n_levels arithmetic; that stable_partition_of_4 is a stable permutation')
-_p('C02', ['R-G', 'R-SIB', 'R-E', 'R-O', 'R-W', 'R-LVL', 'R-TW', 'R-DEL', 'R-LAY', 'R-BITS', 'R-SPLIT', 'R-SMP', 'R-SELP', 'R-SIG', 'R-PRE', 'R-GUSE'], 'other',
+_p('C02', ['R-G', 'R-SIB', 'R-E', 'R-O', 'R-W', 'R-LVL', 'R-TW', 'R-DEL', 'R-LAY', 'R-BITS', 'R-SPLIT', 'R-SMP', 'R-SELP', 'R-SIG', 'R-PRE', 'R-GUSE', 'R-PAR', 'R-SER', 'R-GIDX', 'R-DNAME', 'R-EMPT', 'R-USE', 'R-STAB', 'R-CTOR', 'R-CODE', 'R-HORD'], 'other',
    EXPL + 'C02: validity test (symbol has a code) on rank/rank_prefetch/select, its width, empty state, level-write guard and provenance of code lengths, construction paths.',
    'correctness of craft_wm_codes (prefix-freeness, ordering), independence from hash-map tie order, decode-table search, code lengths beyond 16 levels')
-_p('C03', ['R-G', 'R-SIB', 'R-E', 'R-O', 'R-W', 'R-LVL', 'R-TW', 'R-DEL', 'R-LAY', 'R-BITS', 'R-SPLIT', 'R-HINT', 'R-SELP', 'R-SIG', 'R-GUSE'], 'other',
+_p('C03', ['R-G', 'R-SIB', 'R-E', 'R-O', 'R-W', 'R-LVL', 'R-TW', 'R-DEL', 'R-LAY', 'R-BITS', 'R-SPLIT', 'R-HINT', 'R-SELP', 'R-SIG', 'R-GUSE', 'R-PAR', 'R-SER', 'R-GIDX', 'R-DNAME', 'R-EMPT', 'R-USE', 'R-STAB', 'R-CTOR', 'R-CODE', 'R-HORD'], 'other',
    EXPL + 'C03: validation of WT/HWT get/rank/select in both specialisations, symbol carried in the element type, empty state, level-write guard, construction paths.',
    'wavelet-matrix arithmetic, binwt::craft_wm_codes table bounds for degenerate alphabets (loop-carried indices), tie orders')
-_p('C04', ['R-G', 'R-E', 'R-O', 'R-UNS', 'R-SIB', 'R-LAY', 'R-DA', 'R-DBG', 'R-SMP', 'R-CMP', 'R-SELP', 'R-PF', 'R-INV', 'R-DAR', 'R-PRE', 'R-NON', 'R-GUSE', 'R-WRAP', 'R-RNG', 'R-W', 'R-SER'], 'other',
+_p('C04', ['R-G', 'R-E', 'R-O', 'R-UNS', 'R-SIB', 'R-LAY', 'R-DA', 'R-DBG', 'R-SMP', 'R-CMP', 'R-SELP', 'R-PF', 'R-INV', 'R-DAR', 'R-PRE', 'R-NON', 'R-GUSE', 'R-WRAP', 'R-RNG', 'R-W', 'R-SER', 'R-PAR', 'R-GIDX'], 'other',
    EXPL + 'C04: every unchecked access is behind the documented guard, empty/default states reach no trap, argument arithmetic is bounded, unchecked API is unsafe, '
    'raw views match layouts.',
    'index arithmetic inside search loops (select_block, select*_subblock, block_predecessor, DArray word scan: sentinel invariants over stored data), CPU feature of _popcnt64, allocation failure')
-_p('C05', ['R-G', 'R-SIB', 'R-E', 'R-TW', 'R-LAY', 'R-DEL', 'R-DA', 'R-SPLIT', 'R-SMP', 'R-CMP', 'R-PRE', 'R-GUSE', 'R-REMC'], 'other',
+_p('C05', ['R-G', 'R-SIB', 'R-E', 'R-TW', 'R-LAY', 'R-DEL', 'R-DA', 'R-SPLIT', 'R-SMP', 'R-CMP', 'R-PRE', 'R-GUSE', 'R-REMC', 'R-SER', 'R-GIDX', 'R-DNAME', 'R-EMPT', 'R-USE', 'R-CTOR'], 'other',
    EXPL + 'C05: validation of RSQVector get/rank/select/occs/occs_smaller, packed superblock record (writer/reader agreement), sampling constants, twins.',
    'counter contents, the sampled search, in-block select, per-symbol totals being prefix sums')
-_p('C06', ['R-G', 'R-SIB', 'R-E', 'R-TW', 'R-LAY', 'R-DEL', 'R-SPLIT', 'R-CMP', 'R-HINT', 'R-NON', 'R-GUSE'], 'other',
+_p('C06', ['R-G', 'R-SIB', 'R-E', 'R-TW', 'R-LAY', 'R-DEL', 'R-SPLIT', 'R-CMP', 'R-HINT', 'R-NON', 'R-GUSE', 'R-SER', 'R-GIDX', 'R-DNAME', 'R-EMPT', 'R-SIGN', 'R-USE', 'R-CTOR'], 'other',
    EXPL + 'C06: validation of RSNarrow/RSWide get/rank1/select1/select0, rank0 = i - rank1, empty state, packed counters and hint periods.',
    'counter construction and the hint/linear search')
-_p('C07', ['R-DAR', 'R-G', 'R-E', 'R-TW', 'R-DEL', 'R-LAY', 'R-SPLIT', 'R-NEG', 'R-OBJ', 'R-GUSE'], 'other',
+_p('C07', ['R-DAR', 'R-G', 'R-E', 'R-TW', 'R-DEL', 'R-LAY', 'R-SPLIT', 'R-NEG', 'R-OBJ', 'R-GUSE', 'R-SER', 'R-GIDX', 'R-DNAME', 'R-EMPT', 'R-USE', 'R-CTOR'], 'other',
    EXPL + 'C07: writer/reader agreement on the shared inventories, the u16 narrowing bound, flush trigger, select guards, default state.',
    'the word scan and sign-encoded pointers')
-_p('C08', ['R-SIB', 'R-NON', 'R-O', 'R-G', 'R-TW', 'R-LAY', 'R-E', 'R-SPLIT', 'R-CMP', 'R-NEG', 'R-GUSE', 'R-WRAP', 'R-REMC', 'R-IT'], 'other',
+_p('C08', ['R-SIB', 'R-NON', 'R-O', 'R-G', 'R-TW', 'R-LAY', 'R-E', 'R-SPLIT', 'R-CMP', 'R-NEG', 'R-GUSE', 'R-WRAP', 'R-REMC', 'R-IT', 'R-SER', 'R-GIDX', 'R-DNAME', 'R-EMPT', 'R-SIGN', 'R-USE', 'R-CTOR'], 'other',
    EXPL + 'C08: BitVector vs BitVectorMut readers validate identically, cached population count depends on overwritten bits, conversions move every field, get_bits arithmetic.',
    'bit-level effect of set_symbol, word reads and position iterators over arbitrary histories')
-_p('C09', ['R-PF', 'R-EFF', 'R-SIB', 'R-LAY', 'R-BITS', 'R-SER'], 'other',
+_p('C09', ['R-PF', 'R-EFF', 'R-SIB', 'R-LAY', 'R-BITS', 'R-SER', 'R-PAR', 'R-OFFS'], 'other',
    EXPL + 'C09: rank_prefetch validates like rank and returns exactly rank_unchecked on the untouched arguments; prefetch addresses use wrapping arithmetic and only reach the '
    'intrinsic; positions feed only hints; bodies are feature-independent.',
    'that the estimates stay within the next level where they are re-used as arguments of approx_rank_unchecked / rank_block_unchecked (an invariant over data)')
-_p('C10', ['R-TW', 'R-DA', 'R-DBG', 'R-G', 'R-UNS', 'R-O', 'R-NON', 'R-W', 'R-WRAP'], 'other',
+_p('C10', ['R-TW', 'R-DA', 'R-DBG', 'R-G', 'R-UNS', 'R-O', 'R-NON', 'R-W', 'R-WRAP', 'R-SER'], 'other',
    EXPL + 'C10: twin shapes make checked and unchecked values equal by construction; debug assertions equal the documented precondition; build profiles differ only by assertions.',
    'whether the shared unchecked body is itself correct (C01-C08)')
 _p('C11', ['R-SER', 'R-AUTO', 'R-EFF', 'R-NON'], 'proof',
@@ -231,25 +255,25 @@ _p('C11', ['R-SER', 'R-AUTO', 'R-EFF', 'R-NON'], 'proof',
    'functions of the fields, R-EFF) identical answers.',
    'bincode\'s own behaviour on these types, platform usize width',
    trusted_base=['rustc', 'serde_derive (generated code is inspected, its semantics trusted)', 'serde', 'bincode 1.3.3'])
-_p('C12', ['R-IT', 'R-E', 'R-REMC'], 'other', EXPL + 'C12: cursor discipline of every ExactSizeIterator; WTIterator template facts from which in-order / reverse-order / exact-length follow by induction.',
+_p('C12', ['R-IT', 'R-E', 'R-REMC', 'R-G', 'R-GIDX'], 'other', EXPL + 'C12: cursor discipline of every ExactSizeIterator; WTIterator template facts from which in-order / reverse-order / exact-length follow by induction.',
    'that get_unchecked(k) returns S[k] (C01-C03); BitVectorBitPositionsIter word scanning')
-_p('C13', ['R-MSK', 'R-G', 'R-TW', 'R-DEL', 'R-LAY', 'R-E', 'R-SPLIT', 'R-GUSE', 'R-REMC', 'R-IT', 'R-O', 'R-DA'], 'other',
+_p('C13', ['R-MSK', 'R-G', 'R-TW', 'R-DEL', 'R-LAY', 'R-E', 'R-SPLIT', 'R-GUSE', 'R-REMC', 'R-IT', 'R-O', 'R-DA', 'R-SER', 'R-GIDX', 'R-DNAME', 'R-EMPT', 'R-USE', 'R-CTOR'], 'other',
    EXPL + 'C13: two-bit truncation precedes the write, factor-2 agreement of push/len/get, extend pushes every element, get validation.',
    'bit placement inside the line for all 256 positions')
 _p('C14', ['R-LAY', 'R-BOX', 'R-PF', 'R-SIG', 'R-NON'], 'other', EXPL + 'C14: layouts and constants from which the relative overheads are computed and compared with the stated bounds; payload fields have no slack.',
    'the level-count formula and allocation totals for all n (loop trip counts)')
-_p('C15', ['R-LVL', 'R-LAY'], 'other', EXPL + 'C15: levels hold only live codes; optimal lengths used unmodified with the right fragment width.',
+_p('C15', ['R-LVL', 'R-LAY', 'R-HORD'], 'other', EXPL + 'C15: levels hold only live codes; optimal lengths used unmodified with the right fragment width.',
    'the numeric bounds n(H0+2), n(H0+1): they follow from Huffman optimality (trusted crate minimum_redundancy) given the decided clauses')
 _p('C16', ['R-SPC'], 'other', EXPL + 'C16: every heap-bearing component is accounted; Vec counts capacity; scaled variants divide by 1024^k.',
    'closeness in percent; Huffman table constants')
-_p('C17', ['R-TAB', 'R-W', 'R-ALL', 'R-WRAP', 'R-RNG'], 'other', EXPL + 'C17: the in-byte select table is checked exhaustively (2048 entries) against its definition; partitions shift in the element type.',
+_p('C17', ['R-TAB', 'R-W', 'R-ALL', 'R-WRAP', 'R-RNG', 'R-FLT', 'R-STAB', 'R-HORD'], 'other', EXPL + 'C17: the in-byte select table is checked exhaustively (2048 entries) against its definition; partitions shift in the element type.',
    'broadword arithmetic of select_in_word(_u128) for all words, popcnt_wide, msb, permutation/stability of partitions, text_remap (numeric facts over all inputs)')
 _p('C18', ['R-AUTO', 'R-EFF', 'R-UNS'], 'proof',
    'Obligations = per field of the containment closure {no interior mutability / raw pointer / shared-ownership type}, per &self query method {no write effect on its call-graph closure}, '
    'per *_unchecked fn {unsafe}. With them rustc\'s auto traits give Send+Sync (also discharged by the type checker on concrete instantiations in the thorough tier witness crate) and '
    'data-race freedom / interleaving independence follow from Sync + no write through shared references.',
    'nothing structural; dynamic stress is a different family', trusted_base=['rustc auto-trait and aliasing rules', 'std'])
-_p('C19', ['R-DEL', 'R-W', 'R-SER', 'R-NON'], 'other',
+_p('C19', ['R-DEL', 'R-W', 'R-SER', 'R-NON', 'R-USE', 'R-CTOR'], 'other',
    EXPL + 'C19: construction paths delegate to new()/from() on the whole input; no width-dependent narrowing; derived Clone/PartialEq cover every field.',
    'injectivity of the encoding (different sequences never equal), equality of answers across Huffman tie orders')
 
